@@ -303,6 +303,9 @@ func (p *CFListChannelPayload) UnmarshalBinary(uplink bool, data []byte) error {
 		return errors.New("lorawan: length must be a multiple of 3")
 	}
 
+	// channels not present in data must not keep a previous value
+	p.Channels = [5]uint32{}
+
 	for i := 0; i < len(data)/3; i++ {
 		p.Channels[i] = binary.LittleEndian.Uint32([]byte{
 			data[i*3],
@@ -350,6 +353,9 @@ func (p *CFListChannelMaskPayload) UnmarshalBinary(uplink bool, data []byte) err
 
 	var chMaskNil ChMask
 	var pending []ChMask
+
+	// do not append to the masks of a previous decode
+	p.ChannelMasks = nil
 
 	for i := 0; i < len(data)/2; i++ {
 		var cm ChMask
@@ -451,6 +457,8 @@ func (p *JoinAcceptPayload) UnmarshalBinary(uplink bool, data []byte) error {
 		if err := p.CFList.UnmarshalBinary(data[12:]); err != nil {
 			return err
 		}
+	} else {
+		p.CFList = nil
 	}
 
 	return nil
